@@ -137,3 +137,46 @@ theorem typeMapEntries_of_nodup {s : Schema} (hn : s.typeNames.Nodup) : s.typeMa
   lastWins_of_nodup _ hn
 
 end Gql
+
+namespace Gql
+
+theorem find_reverse_of_nodup {α : Type} (key : α → Name) :
+    ∀ (l : List α), (l.map key).Nodup → ∀ n, l.reverse.find? (fun x => key x == n) = l.find? (fun x => key x == n)
+  | [], _, _ => rfl
+  | x :: xs, hn, n => by
+      simp only [List.map_cons, List.nodup_cons] at hn
+      simp only [List.reverse_cons, List.find?_append, List.find?_cons, List.find?_nil]
+      rw [find_reverse_of_nodup key xs hn.2 n]
+      by_cases hx : key x == n
+      · simp only [hx]
+        have : xs.find? (fun y => key y == n) = none := by
+          rw [List.find?_eq_none]
+          intro y hy hyn
+          apply hn.1
+          have h1 : key y = n := by simpa using hyn
+          have h2 : key x = n := by simpa using hx
+          rw [h2, ← h1]
+          exact List.mem_map.2 ⟨y, hy, rfl⟩
+        simp [this]
+      · simp only [hx]
+        cases xs.find? (fun y => key y == n) <;> simp
+
+theorem directiveByName_eq_find (s : Schema) (n : Name) :
+    s.directiveByName n = s.directives.find? (fun d => d.name == n) := by
+  induction s with
+  | nil => rfl
+  | cons x xs ih =>
+    cases x with
+    | directive d =>
+      simp only [Schema.directiveByName, Schema.directives, List.find?_cons]
+      by_cases h : d.name == n <;> simp [h, ih]
+    | schema _ | type _ | ext => simp only [Schema.directiveByName, Schema.directives, ih]
+
+/-- `ctx.directives` (HashMap, last wins) agrees with `directive_by_name` (first match) when
+    directive names are unique -/
+theorem directiveMapGet_eq_directiveByName (s : Schema) (hn : (s.directives.map (·.name)).Nodup) (n : Name) :
+    s.directiveMapGet n = s.directiveByName n := by
+  rw [directiveByName_eq_find]
+  exact find_reverse_of_nodup (·.name) s.directives hn n
+
+end Gql
